@@ -3,7 +3,8 @@
    The premises 0 < cn P <= 2^256 say that a scalar fits its 32-byte encoding (true for secp256k1 and for the
    order-13 / order-199 groups: Examples premises_secp256k1, premises_order13).  No group law is needed. *)
 From Coq Require Import ZArith List Bool.
-Require Import Spec.Params Spec.Field Spec.Curve Spec.Bytes Model.Base Model.Halfagg Proofs.HalfaggProofs.
+Require Import Spec.Params Spec.Field Spec.Curve Spec.Bytes Model.Base Model.Schnorr Model.Halfagg Proofs.HalfaggProofs.
+Require Import Proofs.MathFacts Proofs.HalfaggComplete.
 Import ListNotations.
 Local Open Scope Z_scope.
 
@@ -105,3 +106,45 @@ Theorem aggverify_ret_bool : forall P pks msgs n aggsig len,
   let r := ret_of (halfagg_aggverify P pks msgs n aggsig len) in r = 0 \/ r = 1.
 Proof. exact aggverify_ret_bool. Qed.
 Print Assumptions aggverify_ret_bool.
+
+(* closed form of the one-shot aggregate: the r_i in order, then s = sum_i z_i*s_i mod n with z_0 = 1 and
+   z_i = int(TaggedHash("HalfAgg/randomizer", r_0||pk_0||m_0|| ... ||r_i||pk_i||m_i)) mod n (agg_sum in
+   Proofs/HalfaggProofs.v; the s_i are taken as the integers of their 32 bytes, i.e. silently reduced) *)
+Theorem aggregate_bytes_spec : forall P, 0 < cn P -> forall agg new,
+  inc_items P agg [] new =
+  flat_map item_r new ++ sc_to_b32 (agg_sum P new [] 0 mod cn P) ++ skipn (32 * (length new + 1)) agg.
+Proof. exact aggregate_bytes_spec. Qed.
+Print Assumptions aggregate_bytes_spec.
+
+(* COMPLETENESS [MF]: under the group premises (MathFacts: p, n prime, the chord-and-tangent law is an abelian
+   group law on the curve, n*G = infinity) the one-shot aggregate of signatures that satisfy the BIP-340
+   equation in its lifted form  s*G = lift_x(r) + e*P  (sig_valid in Proofs/HalfaggComplete.v) is produced
+   successfully and accepted by aggregate verification for the same keys and messages, with the returned
+   length.  By inc_aggregate_assoc every incrementally built aggregate is the same byte string.
+   Non-vacuity: Examples toy_sig_valid / toy_aggregate_verifies on the toy curve where MathFacts is proved. *)
+Theorem aggregate_verifies : forall P, MathFacts P -> cn P <= 2 ^ 256 ->
+  forall (w : list trip) agg len,
+  Forall (sig_valid P) w ->
+  Z.of_nat (length w) < size_max ->
+  32 * (Z.of_nat (length w) + 1) <= len -> len <= Z.of_nat (length agg) ->
+  exists out,
+    halfagg_aggregate P (Some agg) (Some len) (Some (map t_pk w)) (Some (map t_msg w)) (Some (map t_sig w)) (Z.of_nat (length w))
+      = [AInt 1; AInt (32 * (Z.of_nat (length w) + 1)); ABytes out] /\
+    halfagg_aggverify P (Some (map t_pk w)) (Some (map t_msg w)) (Z.of_nat (length w)) (Some out) (32 * (Z.of_nat (length w) + 1))
+      = [AInt 1].
+Proof. exact aggregate_verifies. Qed.
+Print Assumptions aggregate_verifies.
+
+(* EXACTNESS: for non-NULL arguments verification returns 1 exactly when the length is 32*(n+1), every key
+   object loads, every r_i is < p and lifts to a curve point, s < n, and the half-aggregation equation
+   -(s*G) + sum_i z_i*(e_i*P_i + lift_x(r_i)) = infinity holds (spec_rhs/spec_term in Proofs/HalfaggProofs.v
+   compute that sum with no check inside; z_0 = 1) *)
+Theorem aggverify_eq_spec : forall P pks msgs n agg len,
+  let nn := Z.to_nat n in
+  let its := combine (combine (firstn nn pks) (firstn nn msgs)) (chunks32 nn agg) in
+  let sv := be_val (slice (32 * nn) 32 agg) in
+  ret_of (halfagg_aggverify P (Some pks) (Some msgs) n (Some agg) len) = 1 <->
+  (len = 32 * (n + 1) /\ 0 <= n /\ Forall (item_ok P) its /\ sv < cn P /\
+   padd P (pneg P (pmul P (sv mod cn P) (G P))) (spec_rhs P its [] 0 None) = None).
+Proof. exact aggverify_eq_spec. Qed.
+Print Assumptions aggverify_eq_spec.
